@@ -153,7 +153,7 @@ func runOneHistory(c *ctx, hc histCfg, hid, nSteps int) {
 	// optional ID-token claims must not change how long a session or its store entry lives: one history in three is answered from an OLD provider session
 	// (auth_time hours ago, also older than the maximum session lifetime)
 	if c.rng.chance(1, 3) {
-		h.s.idp.authTimeAgo = pick(c.rng, []time.Duration{30 * time.Minute, 2 * time.Hour, 26 * time.Hour})
+		h.s.idp.authTimeAgo = pick(c.rng, []time.Duration{30 * time.Minute, 2 * time.Hour, 26 * time.Hour, -40 * time.Minute}) // (negative: the provider's clock runs ahead)
 		c.count("hist:old-auth_time")
 	}
 	defer func() {
